@@ -3,7 +3,7 @@
 # usage: tools/run_baseline.sh [logfile]
 LOG=${1:-/tmp/nk_baseline.log}
 D=$(mktemp -d /tmp/nk_base.XXXXXX)
-rsync -a --exclude .git /repo/ "$D"/
+rsync -a --exclude .git --exclude '*.o' --exclude '*.a' /repo/ "$D"/
 cd "$D" && ./configure >/dev/null && make -j16 >/dev/null 2>&1 && make tests > "$LOG" 2>&1
 RC=$?
 echo "exit $RC pass=$(grep -c PASS "$LOG") fail=$(grep -ci fail "$LOG")" | tee -a "$LOG"
